@@ -139,7 +139,8 @@ def check_config(cs, cfg, level, exempt=()):
     out = []
     for k, dom in cs.items():
         if k not in cfg:
-            out.append(("c06:missing-key", f"suggested configuration lacks key {k!r}"))
+            if isinstance(dom, Domain) or level == "scheduler":
+                out.append(("c06:missing-key", f"suggested configuration lacks key {k!r}"))
             continue
         v = cfg[k]
         if isinstance(dom, Domain):
@@ -154,7 +155,7 @@ def check_config(cs, cfg, level, exempt=()):
             if not S.is_valid(dom, v):
                 sig = "c06:quantized-sample-outside-domain" if _is_quantized(dom) else "c06:value-outside-domain"
                 out.append((sig, f"{k}={v!r} is not a member of {dom!r}"))
-        elif k not in exempt:
+        elif k not in exempt and level == "scheduler":
             if type(v) is not type(dom) or v != dom:
                 out.append(("c06:constant-changed", f"constant {k}={dom!r} suggested as {v!r}"))
     return out
@@ -164,50 +165,61 @@ def _near(a, b):
     return abs(a - b) <= 1e-9 * max(1.0, abs(a), abs(b))
 
 
-def default_set(dom):
-    """values the mid-point rule allows for a missing entry (both neighbours at a tie)"""
+def default_set(dom, impl_choice=None):
+    """values the mid-point rule allows for a missing entry.  Where the rule's nearest-value
+    step is a tie up to round-off both neighbours are allowed, and the implementation's own
+    (deterministic) choice among them is taken."""
     if isinstance(dom, Categorical) and not isinstance(dom, Ordinal):
         return [dom.categories[0]]
     if isinstance(dom, Ordinal) and not isinstance(dom, OrdinalNearestNeighbor):
         return [dom.categories[len(dom.categories) // 2]]
     if isinstance(dom, OrdinalNearestNeighbor):
-        lower, upper, cand = float(dom.categories[0]), float(dom.categories[-1]), list(dom.categories)
+        lower, upper = float(dom.categories[0]), float(dom.categories[-1])
     else:
         lower, upper = float(dom.lower), float(dom.upper)
-        cand = list(dom.values) if isinstance(dom, FiniteRange) else None
     log = is_log_space(dom)
     mid = math.exp(0.5 * (math.log(upper) + math.log(lower))) if log else 0.5 * (upper + lower)
     if isinstance(dom, Float):
         return ("float", min(max(mid, lower), upper))
     if isinstance(dom, Integer):
-        f = math.floor(mid)
-        if _near(mid - f, 0.5):
-            return [int(f), int(f) + 1]
-        return [int(round(mid))]
-    dist = (lambda c: abs(math.log(c) - math.log(mid))) if log else (lambda c: abs(c - mid))
-    best = min(dist(c) for c in cand)
-    return [c for c in cand if dist(c) <= best + 1e-9 * max(1.0, best)]
+        return [min(max(int(round(mid)), dom.lower), dom.upper)]
+    if isinstance(dom, FiniteRange):
+        n = len(dom)
+        if n == 1:
+            return [dom.values[0]]
+        # equally spaced internal grid (before any rounding to int)
+        if log:
+            grid = [math.log(lower) + k * (math.log(upper) - math.log(lower)) / (n - 1) for k in range(n)]
+            m = math.log(mid)
+        else:
+            grid = [lower + k * (upper - lower) / (n - 1) for k in range(n)]
+            m = mid
+        cand = list(dom.values)
+    else:
+        cand = list(dom.categories)
+        grid = [math.log(c) for c in cand] if log else [float(c) for c in cand]
+        m = math.log(mid) if log else mid
+    best = min(abs(g - m) for g in grid)
+    allowed = [c for c, g in zip(cand, grid) if abs(g - m) <= best + 1e-9 * max(1.0, abs(m))]
+    if len(set(allowed)) > 1 and impl_choice is not None and any(impl_choice == a for a in allowed):
+        return [impl_choice]
+    return allowed
 
 
 def expected_initial(cs, p2e):
-    """[{key: acceptable values}] after mid-point imputation and removal of duplicates"""
+    """[{key: acceptable values}] per point after mid-point imputation (duplicates not yet removed)"""
     pts = [dict()] if p2e is None else p2e
-    out, seen = [], []
+    out = []
+    try:
+        impl_dflt = S.impute_points_to_evaluate([dict()], cs)[0]
+    except Exception:
+        impl_dflt = {}
     for p in pts:
-        exp, rep = {}, []
+        exp = {}
         for k, dom in cs.items():
-            if not isinstance(dom, Domain):
-                continue
-            if k in p:
-                exp[k] = [p[k]]
-                rep.append(float(p[k]) if isinstance(p[k], (int, float)) else p[k])
-            else:
-                ds = default_set(dom)
-                exp[k] = ds
-                rep.append(("mid", k))
-        if rep not in seen:
-            seen.append(rep)
-            out.append(exp)
+            if isinstance(dom, Domain):
+                exp[k] = [p[k]] if k in p else default_set(dom, impl_dflt.get(k))
+        out.append(exp)
     return out
 
 
@@ -256,16 +268,20 @@ def monitor(spec, t):
             exp = expected_initial(hp_cs, spec["p2e"])
         except Exception:  # a value the rule cannot be read on (invalid point rejected by the constructor)
             exp = None
+        n_init = 0
         if exp is not None:
-            for i, ex in enumerate(exp):
-                if i >= len(sugg):
+            # a point whose imputed configuration equals an earlier one is dropped; the others
+            # are the first suggestions, in the given order
+            for ex in exp:
+                if any(_matches(ex, sugg[j]["config"]) for j in range(min(n_init, len(sugg)))):
+                    continue
+                if n_init >= len(sugg):
                     break
-                if not _matches(ex, sugg[i]["config"]):
-                    add("c06:initial-points-not-first", f"suggestion #{i} is {sugg[i]['config']!r}, expected initial configuration {ex!r}")
+                if not _matches(ex, sugg[n_init]["config"]):
+                    add("c06:initial-points-not-first",
+                        f"suggestion #{n_init} is {sugg[n_init]['config']!r}, expected initial configuration {ex!r}")
                     break
-            n_init = len(exp)
-        else:
-            n_init = 0
+                n_init += 1
     else:
         n_init = 0
     # 3. non-repetition
@@ -275,6 +291,8 @@ def monitor(spec, t):
         sr = t.get("searcher") or (t["sched"].searcher if t.get("sched") is not None else None)
         hpr = getattr(sr, "_hp_ranges", None) or getattr(sr, "hp_ranges", None)
         seen_cfg, seen_ms = [], set()
+        dup_values = any(isinstance(d, FiniteRange) and len(set(d.values)) < len(d.values) for d in hp_cs.values())
+        grid_dup = spec.get("kind") == "grid" and dup_values
         for i, e in enumerate(sugg):
             c = {k: e["config"][k] for k in hp_keys}
             ms = hpr.config_to_match_string(c) if hpr is not None else None
@@ -282,6 +300,9 @@ def monitor(spec, t):
                 if c0 == c:
                     if ms0 != ms:
                         add("c06:negative-zero-repeat", f"suggestion #{i} {c!r} equals suggestion #{j} {c0!r} (match strings {ms0!r} / {ms!r} differ)")
+                    elif grid_dup:
+                        add("c06:grid-repeats-duplicate-finrange-values",
+                            f"grid suggestion #{i} {c!r} equals suggestion #{j}: a FiniteRange(cast_int) domain lists a value twice")
                     else:
                         add("c06:repeated-suggestion", f"suggestion #{i} {c!r} equals earlier suggestion #{j}")
                     break
@@ -300,15 +321,17 @@ def monitor(spec, t):
             if spec.get("kind") == "grid" and init_ev is not None:
                 keys = init_ev["hp_keys"]
                 want = [dict(c) for c in init_ev["init"]]
+                init_ms = {hpr.config_to_match_string(c) for c in want}
                 for tpl in init_ev["grid"]:
                     g = {k: v for k, v in zip(keys, tpl) if k in hp_keys}
-                    if g not in want:
+                    # a grid point (approximately) equal to an initial configuration is not due again
+                    if hpr.config_to_match_string(g) not in init_ms and g not in want:
                         want.append(g)
                 got = [c for c, _ in seen_cfg]
                 missing = [g for g in want if g not in got]
                 if missing:
                     add("c06:grid-point-skipped", f"grid searcher said 'nothing left' without suggesting {missing[0]!r}")
-                if len(got) != len(distinct):
+                if len(got) != len(distinct) and not grid_dup:
                     add("c06:grid-point-twice", "grid searcher suggested a configuration twice")
                 full = S.true_space_size(hp_cs)
                 if full is not None and all(not isinstance(d, (Integer, Float)) or len(d) == 1 for d in hp_cs.values() if isinstance(d, Domain)):
